@@ -2,6 +2,13 @@
 import json
 
 CLAIMED = {
+    "C01": {
+        "level": "exploration",
+        "text": "Seeded search over call histories of the eleven QC test functions (fresh calls incl. n=0,1,2, repeats on the same argument objects, new data with an earlier call's parameter objects) executed in one process, with every call's reference execution in its own process forked from a pristine worker under a different dirty-allocator pattern; totality, shape, flag alphabet, unmasked output, byte-identical arguments, equality with the pristine call and immutability of earlier outputs are checked per call. Sampling, not proof.",
+        "ref": "DESIGN.md section 3 (C01)",
+        "note": "What is simulated is the history / heap dimension only: that a call's result does not depend on what ran before or on uninitialised memory. Flag semantics per test are other (not-applicable) properties. Three crashes found this way were repaired by fix: commits.",
+        "technique": "deterministic simulation: seeded call histories vs fork-per-call pristine reference executions under a dirty allocator",
+    },
     "C20": {
         "level": "exploration",
         "text": "Seeded search over evaluation histories against the interpreter-wide expression stack (valid evaluations, rejected inputs that leave debris, evaluations raising mid-way, repeats, validator calls, create_config over real NetCDF climatology files); every value is compared bitwise with an AST evaluator, create_config spans with a grid-cell model (rtol 1e-9). Sampling, not proof.",
